@@ -20,8 +20,12 @@ MINIMUM = {'R14.1': 2, 'R14.2': 2, 'R14.3': 2, 'R14.4': 1, 'R14.5': 4}
 
 # rules of sibling properties that are necessary conditions of this one too
 # (evaluated by the sibling module on the same graphs, reported under this property)
-ALSO = {'C09': {'R09.3': ('what is announced and what is removed is the same pair of paths', 'empty ')},
- 'C11': {'R11.2': 'what is announced and what is removed derive from the same listing'}}
+ALSO = {'C09': {'R09.3': ('what is announced and what is removed is the same pair of paths',
+                   'empty ')},
+ 'C11': {'R11.2': 'what is announced and what is removed derive from the same listing'},
+ 'C15': {'R15.4': 'the payload delete is existence-tolerant without following links'},
+ 'C18': {'R18.5': 'what the dry run announces is removed whatever it is (no link-following '
+                  'test)'}}
 
 def is_reply_predicate(t, is_reply):
     """Canonical 'reply starts with y/Y' forms."""
